@@ -4,12 +4,12 @@ sys.path.insert(0, os.path.dirname(os.path.abspath(__file__)))
 import vlib
 
 PID = "C10"
-BASE = {"Vals": '{"x"}', "NoVal": "NoVal", "Untouched": "Untouched", "PrefixOf": "<- MCPrefixOf"}
+BASE = {"Vals": '{"x"}', "NoVal": "NoVal", "Untouched": "Untouched", "PrefixOf": "<- MCPrefixOf", "EnableRollback": "TRUE"}
 
 
 def design(work, name, keys, prefixes, maxv, depth, copy):
     c = dict(BASE, Keys=keys, Prefixes=prefixes, MaxVersion=str(maxv), MaxDepth=str(depth), EnableCopy="TRUE" if copy else "FALSE")
-    cfg = vlib.cfg_text(constants=c, view="view", invariants=["ReadYourWrites", "DeletesHide", "IterSorted"], properties=["Immutable"])
+    cfg = vlib.cfg_text(constants=c, view="view", invariants=["ReadYourWrites", "DeletesHide", "IterSorted", "RollbackExact"], properties=["Immutable"])
     return vlib.tlc(os.path.join(work, name), "MCStore", cfg, workers=16, timeout=1500)
 
 
@@ -62,7 +62,7 @@ def main(tier):
                     "traces_validated_against_impl": len(plans), "trace_lines": total, "trace_lines_accepted": okl,
                     "violation_classes": {k: len(x) for k, x in classes.items()}, "known_findings_reproduced": [k for k, _ in v.known], "samples": samples}
         vlib.write_evidence(PID, tier, "model_checking", coverage, time.time() - t0, len(v.violations),
-                            ["six keys over three length-prefixed prefixes, up to 12 versions per sequence", "rollback is not exercised"])
+                            ["six keys over three length-prefixed prefixes, up to 12 versions per sequence", "rollback to any earlier version is part of the sequences; a store copy is not used across a rollback"])
         print("C10 %s: design %d+%d states; %d real store operations validated by TLC; classes %s" % (tier, ra.distinct, rb.distinct, okl, {k: len(x) for k, x in classes.items()}))
         return v.exit_code()
     finally:
